@@ -40,6 +40,7 @@ class GCfg:
     # fixed shapes instead of every shape on N nodes: each shape lists the indices of the dependencies of node i
     fixed_shapes: Tuple[Tuple[Tuple[int, ...], ...], ...] = ()
     flavours: str = "s"  # run_c13: s(ync) DAG / a(sync) AsyncDAG
+    failed_before: bool = False  # run_c13: the executor may have had an earlier failing run under the opposite debug setting
     twin: bool = False  # reachability twin: the harness ends with check(False), which must come back violated
 
 
@@ -124,9 +125,25 @@ def run_c07(cfg: GCfg, c: Ctx) -> Any:
         check_table(d3.graph_ids.compound_priority, want, [n for n in names if n in d3.exec_nodes], "of the DAG derived with compose()")
         c.cover("w_rebuilt")
     # reconfiguration: all nodes or one node get fresh priorities
-    k = c.choose(N + 3, "reconf") if cfg.reconf else 0
+    k = c.choose(N + 4, "reconf") if cfg.reconf else 0
     cur = dict(prio)
-    if k == N + 2:
+    if k == N + 3:
+        # a configuration that carries new priorities together with an unusable limit (0): whether the library refuses it
+        # or not, the table the scheduler reads afterwards is the documented function of the priorities the DAG's nodes
+        # now have
+        newp = {n: c.int("q_" + n) for n in names}
+        try:
+            d.config_from_dict({"nodes": {n: {"priority": newp[n]} for n in names}, "max_concurrency": 0})
+        except SXControl:
+            raise
+        except BaseException:
+            c.cover("w_config_refused")
+        d.max_concurrency = 1
+        cur = {n: d.exec_nodes[n].priority for n in names}
+        want = cp_def(cur)
+        check_table(d.graph_ids.compound_priority, want, names, "after a config_from_dict that carried max_concurrency=0")
+        c.cover("w_reconfigured_with_invalid_limit")
+    elif k == N + 2:
         # one entry addressed to the tag carried by every node: all of them get the new priority
         q = c.int("q_shared")
         d.config_from_dict({"nodes": {"g": {"priority": q}}})
@@ -428,7 +445,20 @@ def run_c13(cfg: GCfg, c: Ctx) -> Any:
     setup0 = bool(cfg.setup and labels[0] not in dbg and c.choose(2, "setup"))
     cnt = Counter()
     desc, anc = closure(labels, alldeps)
-    xns = {l: xn(term_fn(l, cnt), debug=(l in dbg), setup=(setup0 and l == labels[0]), resource=Resource.main_thread) for l in labels}
+    fail: List[Optional[str]] = [None]
+
+    def node_fn13(l: str) -> Any:
+        f = term_fn(l, cnt)
+
+        def g(*a, **k):  # type: ignore[no-untyped-def]
+            if fail[0] == l:
+                raise RuntimeError("injected failure of %s" % l)
+            return f(*a, **k)
+
+        g.__name__ = g.__qualname__ = l
+        return g
+
+    xns = {l: xn(node_fn13(l), debug=(l in dbg), setup=(setup0 and l == labels[0]), resource=Resource.main_thread) for l in labels}
 
     def call_args(l: str, r: Dict[str, Any]) -> List[Any]:
         return [r[d] for d in deps[l]]
@@ -509,8 +539,30 @@ def run_c13(cfg: GCfg, c: Ctx) -> Any:
                                      {x} if kind in ("target", "deps_of") else None)
             _prior_executor(c, d, kwsel, run_dbg)
             ex = d.executor(**kwsel)
-            graph_nodes = set(ex.graph.nodes)
-            out = _sync(ex())
+            if cfg.failed_before and c.choose(2, "failed_before"):
+                # the executor was created under this debug setting; an earlier run of it, made while the setting was the
+                # opposite one, failed in a node: the run that is judged uses what the executor selected when it was created
+                c.assume(not setup0)
+                fail[0] = labels[c.choose(N, "failed_before_node")]
+                twz_cfg.RUN_DEBUG_NODES = not run_dbg
+                raised_before = False
+                try:
+                    _sync(ex())
+                except SXControl:
+                    raise
+                except BaseException:
+                    raised_before = True
+                finally:
+                    fail[0] = None
+                    twz_cfg.RUN_DEBUG_NODES = run_dbg
+                c.assume(raised_before)
+                cnt.reset()
+                out = _sync(ex())
+                graph_nodes = set(ex.graph.nodes)
+                c.cover("w_failed_before_under_other_setting")
+            else:
+                graph_nodes = set(ex.graph.nodes)
+                out = _sync(ex())
     finally:
         twz_cfg.RUN_DEBUG_NODES = saved
     entered = cnt.entered()
